@@ -22,6 +22,7 @@ type IngressProfile struct {
 	Replay    bool // small nonce pool, window-edge arrival times
 	Fanout    bool
 	Backends  []string
+	Race      bool // programs may end with concurrent requests
 }
 
 var sysPaths = []string{"/a", "/a/b", "/ab", "/hook", "/x/y", "/"}
@@ -367,6 +368,29 @@ func GenIngressProgram(t *rapid.T, prof IngressProfile) *Program {
 			p.Steps = append(p.Steps, Step{Op: "reload", NewSpec: ns})
 			cur = ns
 		}
+	}
+	if prof.Race && rapid.IntRange(0, 2).Draw(t, "race?") != 0 {
+		// end with a race: one request (usually a valid signed one) sent two or
+		// three times at once, or a captured one replayed alongside a new one
+		base := genReq(t, cur, prof)
+		st := Step{Op: "race", Reqs: []ReqSpec{*base}}
+		for k := rapid.IntRange(1, 2).Draw(t, "race.n"); k > 0; k-- {
+			if rapid.IntRange(0, 3).Draw(t, "race.other") == 0 {
+				st.Reqs = append(st.Reqs, *genReq(t, cur, prof))
+			} else {
+				st.Reqs = append(st.Reqs, *base)
+			}
+		}
+		type seg struct{ who, n int }
+		segs := rapid.SliceOfN(rapid.Custom(func(t *rapid.T) seg {
+			return seg{rapid.IntRange(0, 2).Draw(t, "who"), rapid.SampledFrom([]int{1, 1, 2, 3, 5, 8, 13, 21, 34}).Draw(t, "len")}
+		}), 0, 10).Draw(t, "race.sched")
+		for _, sg := range segs {
+			for i := 0; i < sg.n && len(st.Sched) < 200; i++ {
+				st.Sched = append(st.Sched, sg.who)
+			}
+		}
+		p.Steps = append(p.Steps, st)
 	}
 	return p
 }
